@@ -1023,7 +1023,11 @@ impl MdGen<'_> {
                 mk(format!("out {k}"), "plain", eq)
             };
         }
-        match rng.below(53) {
+        match rng.below(56) {
+            // a bracketed number at the end of other text is text
+            53 => mk(format!("items {k} [3]"), "bracket-trail", eq),
+            54 => mk(format!("array{k}[0]"), "bracket-trail", eq),
+            55 => mk("x [127]".into(), "bracket-trail", eq),
             // a bracketed number followed by blanks is text, not an exit code
             46 => mk(format!("[{}] ", k % 3), "bracket-ws", eq),
             47 => mk("[7]\t".into(), "bracket-ws", eq),
@@ -2066,7 +2070,13 @@ pub fn gen_cram(rng: &mut Rng) -> CramDoc {
                 for _ in 0..nb {
                     comment(rng, &mut ls);
                     k += 1;
-                    let (text, class): (String, &str) = match rng.below(36) {
+                    let (text, class): (String, &str) = match rng.below(41) {
+                        36 => (format!("items {k} [3]"), "bracket-trail"),
+                        37 => (format!("array{k}[0]"), "bracket-trail"),
+                        // Cram globs that end in a backslash (a literal one: nothing follows that it could escape)
+                        38 => (format!("C:\\temp{k}\\ (glob)"), "glob-bs-end"),
+                        39 => ("*\\ (glob)".into(), "glob-bs-end"),
+                        40 => (format!("dir{k}\\ (glob?)"), "glob-bs-end"),
                         29 => (format!("[{}] ", k % 3), "bracket-ws"),
                         30 => ("[7]\t".into(), "bracket-ws"),
                         31 => (format!("[-{}]", 1 + k % 3), "bracket-signed"),
